@@ -15,7 +15,7 @@
 #include <time.h>
 #include <unistd.h>
 
-static int scripted, forced_errno, seen_flags = -1;
+static int scripted, forced_errno, forced_times, seen_flags = -1, n_calls;
 
 int __real_flock(int fd, int op);
 int __wrap_flock(int fd, int op);
@@ -24,8 +24,10 @@ int
 __wrap_flock(int fd, int op)
 {
   seen_flags = op;
+  ++n_calls;
   if (scripted) {
-    if (forced_errno) { errno = forced_errno; return -1; }
+    // the scripted error is returned by the first `forced_times` calls (a signal interrupts a call, not all later ones)
+    if (forced_errno && n_calls <= forced_times) { errno = forced_errno; return -1; }
     return 0;
   }
   return __real_flock(fd, op);
@@ -37,6 +39,8 @@ errno_of(const char* s)
   return !strcmp(s, "EAGAIN") || !strcmp(s, "EWOULDBLOCK") ? EWOULDBLOCK : !strcmp(s, "EINTR") ? EINTR : !strcmp(s, "EBADF") ? EBADF
          : !strcmp(s, "ENOLCK") ? ENOLCK : !strcmp(s, "EINVAL") ? EINVAL : atoi(s);
 }
+
+static void noop_handler(int sig) { (void)sig; }
 
 static double
 now(void)
@@ -73,13 +77,16 @@ main(int argc, char** argv)
   v_setup_io();
   while ((n = v_next(in, tok)) >= 0) {
     if (v_marker(n, tok)) continue;
-    if (!strcmp(tok[0], "flags") && n == 4) {
+    if (!strcmp(tok[0], "flags") && (n == 4 || n == 5)) {
       FILE* f = fopen(path, "r+");
       const ZixFileLockMode m = !strcmp(tok[2], "block") ? ZIX_FILE_LOCK_BLOCK : ZIX_FILE_LOCK_TRY;
       scripted = 1; forced_errno = strcmp(tok[3], "ok") ? errno_of(tok[3]) : 0; seen_flags = -1;
+      forced_times = n == 5 ? atoi(tok[4]) : 1; n_calls = 0;
+      alarm(10);   // a retry loop that never ends is stopped here
       const ZixStatus st = !strcmp(tok[1], "lock") ? zix_file_lock(f, m) : zix_file_unlock(f, m);
       scripted = 0;
-      printf("st=%d | flock-flags=%d\n", (int)st, seen_flags);
+      alarm(0);
+      printf("st=%d calls=%d | flock-flags=%d\n", (int)st, n_calls, seen_flags);
       fclose(f);
     } else if (!strcmp(tok[0], "reset")) {
       for (int i = 0; i < MAXH; ++i) { if (handles[i]) fclose(handles[i]); handles[i] = NULL; holds[i] = 0; }
@@ -140,6 +147,40 @@ main(int argc, char** argv)
       close(pfd[0]);
       waitpid(child, NULL, 0);
       printf("unlock-st=%d released=%d\n", res[0], res[1]);
+    } else if (!strcmp(tok[0], "sigwait") && n == 2) {
+      // <signals>: the parent holds the lock; a child asks in BLOCK mode and is hit by that many signals (handler
+      // installed without SA_RESTART) while it waits.  It must come back only after the release, with SUCCESS.
+      for (int i = 0; i < MAXH; ++i) { if (handles[i]) fclose(handles[i]); handles[i] = NULL; holds[i] = 0; }
+      const int nsig = atoi(tok[1]);
+      volatile long* sh = (volatile long*)mmap(NULL, 4096, PROT_READ | PROT_WRITE, MAP_SHARED | MAP_ANONYMOUS, -1, 0);
+      sh[0] = 0; sh[1] = -99; sh[2] = 0; sh[3] = 0;   // released flag, waiter's status, release seen by waiter, waiter ready
+      FILE* pf = fopen(path, "r+");
+      zix_file_lock(pf, ZIX_FILE_LOCK_BLOCK);
+      fflush(stdout);
+      const pid_t waiter = fork();
+      if (!waiter) {
+        struct sigaction sa;
+        memset(&sa, 0, sizeof(sa));
+        sa.sa_handler = noop_handler;   // no SA_RESTART: flock() fails with EINTR
+        sigaction(SIGUSR1, &sa, NULL);
+        FILE* f = fopen(path, "r+");
+        sh[3] = 1;
+        alarm(20);
+        const ZixStatus st = zix_file_lock(f, ZIX_FILE_LOCK_BLOCK);
+        sh[2] = sh[0];
+        sh[1] = (long)st;
+        if (!st) zix_file_unlock(f, ZIX_FILE_LOCK_BLOCK);
+        _exit(0);
+      }
+      while (!sh[3]) usleep(1000);
+      usleep(50000);
+      for (int i = 0; i < nsig; ++i) { kill(waiter, SIGUSR1); usleep(20000); }
+      sh[0] = 1;
+      zix_file_unlock(pf, ZIX_FILE_LOCK_BLOCK);
+      waitpid(waiter, NULL, 0);
+      fclose(pf);
+      printf("st=%ld after-release=%ld\n", sh[1], sh[2]);
+      munmap((void*)sh, 4096);
     } else if (!strcmp(tok[0], "close") && n == 2) {
       const int h = atoi(tok[1]) % MAXH;
       if (handles[h]) fclose(handles[h]);
